@@ -30,6 +30,7 @@ class T:
         self.direct = []         # consumer names reachable without crossing a buffering node
         self.bound = None        # (kind, n) documented bound to check
         self.funcs = []          # manual func consumer names (map_async)
+        self.items_fn = None     # optional: (producer, i) -> element
 
 
 def build(world, shard):
@@ -62,6 +63,10 @@ def build(world, shard):
     elif name == "slice-direct":
         sink(src.slice(0, None, 1))
         t.skeleton, t.buffering, t.direct = ident, False, ["k"]
+    elif name == "flatten-direct":
+        sink(src.flatten())
+        t.skeleton, t.buffering, t.direct = (lambda L: [y for x in L for y in x]), False, ["k"]
+        t.items_fn = lambda p, i: (p * 100 + i * 10, p * 100 + i * 10 + 1)
     elif name == "buffer":
         node = src.buffer(n)
         sink(node)
@@ -216,7 +221,8 @@ def _run(shard, cs, with_ref, nmd, after_step, r):
             return None
         return make_metadata(x, nmd, True, world.io, r.callbacks, refs=r.refs, events=r.events,
                              clock=world.loop.time)
-    r.producers = [Producer(world, s, [p * 100 + i for i in range(nitems)], awaiting=awaiting,
+    mk = t.items_fn or (lambda p, i: p * 100 + i)
+    r.producers = [Producer(world, s, [mk(p, i) for i in range(nitems)], awaiting=awaiting,
                             metadata=mk_md if with_ref else None)
                    for p, s in enumerate(t.sources)]
     r.pruned = False
